@@ -3,6 +3,7 @@ import Driver.Repo
 import ReplicatModel.Access
 open Lean Replicat Replicat.Access
 namespace Driver.HAccess
+open Driver.HRepo
 def parseKind (s : String) : Except String Kind :=
   match s with
   | "independent" => pure .independent
